@@ -283,6 +283,12 @@ func checkC08(c *Ctx, w *World) {
 		lcs := newCondSpace(pl.uscs, recOf(eqAtom("valIsSc", isV, isVal(sc)), eqAtom("homeIsSc", homeOfK, isVal(sc))), "valIsSc", "homeIsSc")
 		loopEntry := ucs.ForgetLoopVars(ucs.Reach(rng))
 		body := nx.Block().Succs[0]
+		// the purge visits every entry: nothing leaves the loop before the map is exhausted
+		if pl2 := loopWithHeader(pl.uscs, nx.Block()); pl2 == nil || !pl2.leftOnlyAtHeader() {
+			c.fail("C08.purge", fmt.Sprintf("UpdateSubConnState: purge loop#%d visits every entry", np), p.ipos(call), "the purge loop can be left before every entry was examined: at most some of the matching stand-ins are dropped")
+		} else {
+			c.ok("C08.purge", fmt.Sprintf("UpdateSubConnState: purge loop#%d visits every entry", np), p.ipos(call), "the loop is left only when the range over the fallback table is exhausted")
+		}
 		if impV, _ := lcs.Implies(lcs.Reach(call), lcs.Atom("valIsSc")); impV && lcs.Seen("valIsSc") {
 			// purge entries whose stand-in is sc: when sc leaves READY
 			eq, wit := ucs.Equiv(loopEntry, and(base, ucs.And(U("oldReady"), ucs.Not(U("sEqOld")))))
